@@ -8,6 +8,7 @@
 From Coq Require Import List ZArith Bool String.
 From NT Require Import Sx Rose Serialize SerializeSpec SerCompressProofs SerWriterProofs SerReaderProofs SerIsoProofs SerializeProofs
      SerTheorems SerWitness SerIsoRenamed SerWitness2.
+From NT Require MiscZipIO MiscZipIOProofs.   (* part ZIPIO, imported at the end of this file *)
 From NTGen Require Import Generated.
 Import ListNotations.
 Open Scope list_scope.
@@ -173,3 +174,45 @@ Qed.
 Theorem C05_generated_facts_present : GEN_CONST_OK = true /\ GEN_DOCS_OK = true.
 Proof. split; reflexivity. Qed.
 Print Assumptions C05_generated_facts_present.
+
+(* ==== PART ZIPIO: the byte transport of save()/load(): common.open_as_compressed_output_stream and
+   open_as_uncompressed_input_stream (model theories/Forest/MiscZipIO.v, correspondence Cases/CaseMiscZipIO.v on real files,
+   harness parts_misc.ZIPIO).  A file is [FPlain t] or a ZIP container [FZip members]; zipfile / bz2 / zlib / lzma / utf-8
+   are the identity on the text (modelled, not verified). ==== *)
+Import MiscZipIO MiscZipIOProofs.
+
+(* whatever was written comes back, for every accepted compression setting (with auto_uncompress on, the default) *)
+Theorem C05_transport_roundtrip : forall name c t f, write_file name c t = inr f -> read_file f true = RText t.
+Proof. exact transport_roundtrip. Qed.
+Print Assumptions C05_transport_roundtrip.
+
+(* the writer refuses exactly the ints that are not a ZIP method *)
+Theorem C05_transport_refused_iff : forall name c t,
+  (exists e, write_file name c t = inl e) <-> exists z, c = CInt z /\ known_method z = false.
+Proof. exact write_refused_iff. Qed.
+Print Assumptions C05_transport_refused_iff.
+
+(* only `False` writes a plain file: 0 (ZIP_STORED) is a container, True means BZIP2; one member named "<file name>.json" *)
+Theorem C05_transport_shapes : forall name t,
+  write_file name CFalse t = inr (FPlain t) /\
+  write_file name CTrue t = inr (FZip [(name ++ t_json, ZIP_BZIP2, t)]) /\
+  write_file name (CInt 0) t = inr (FZip [(name ++ t_json, ZIP_STORED, t)]) /\
+  (forall z, known_method z = true -> write_file name (CInt z) t = inr (FZip [(name ++ t_json, z, t)])).
+Proof. exact write_shapes. Qed.
+Print Assumptions C05_transport_shapes.
+
+(* the reader: a container is accepted iff it has exactly one member (any name, any method); without auto_uncompress a
+   plain file still reads and a container is not interpreted *)
+Theorem C05_transport_single_member : forall ms, (exists t, read_file (FZip ms) true = RText t) <-> List.length ms = 1%nat.
+Proof. exact read_single_member_iff. Qed.
+Print Assumptions C05_transport_single_member.
+
+Theorem C05_transport_no_uncompress : forall f, read_file f false = match f with FPlain t => RText t | FZip _ => RRaw end.
+Proof. exact read_without_uncompress. Qed.
+Print Assumptions C05_transport_no_uncompress.
+
+Example C05_transport_ex :
+  write_file [102]%Z (CInt 1) [120]%Z = inl MiscZipIO.E_NOTIMPL /\
+  read_file (FZip [([97]%Z, 0%Z, [49]%Z); ([98]%Z, 12%Z, [50]%Z)]) true = RErr MiscZipIO.E_VALUE /\
+  read_file (FZip [([97]%Z, 8%Z, [49]%Z)]) true = RText [49]%Z.
+Proof. repeat split. Qed.
